@@ -532,11 +532,11 @@ def paths(src=None, dst=None, dst_nets=None, block=None):
                 paths = sorted(paths, key=lambda p: len(p), reverse=True)
                 keep = []
                 for i in range(len(paths)):
-                    # Check if there is a path in paths[i+1:] that is the suffix
-                    # of paths[i] (paths[i] is at least as large as each path in
-                    # paths[i+1:]). If so, paths[i] contains a loop since both start
-                    # at src_wire, so don't keep it.
-                    if not any(paths[i][-len(p):] == p for p in paths[i + 1:]):
+                    # paths[i] contains an inner loop exactly when it comes back to
+                    # src_wire, i.e. one of its nets drives src_wire; don't keep it.
+                    # (Comparing with the suffixes of shorter paths would also drop a
+                    # path through a net that reads src_wire both directly and indirectly.)
+                    if not any(d is src_wire for net in paths[i] for d in net.dests):
                         keep.append(paths[i])
                 paths = keep
             all_paths[src_wire][dst_wire] = paths
